@@ -49,7 +49,8 @@ JoinDirs(ds, sepb, gap, dbl) ==
    IF ds = <<>> THEN <<>>
    ELSE IF Len(ds) = 1 THEN Dir(ds[1])
    ELSE Dir(ds[1]) \o sepb \o (IF dbl = 1 THEN gap \o sepb ELSE <<>>) \o gap \o JoinDirs(Tail(ds), sepb, gap, dbl - 1)
-Render(s) == JoinDirs(s.dirs, s.sep, s.gap, s.dbl) \o (IF s.trail THEN s.sep ELSE <<>>) \o s.tail
+\* head / tail: fixed text around the list (the braces of a JSON object, the blank line that ends a header block)
+Render(s) == s.head \o JoinDirs(s.dirs, s.sep, s.gap, s.dbl) \o (IF s.trail THEN s.sep ELSE <<>>) \o s.tail
 
 \* the RFC-level reader: names compared case-insensitively, decorations ignored, unknown directives dropped
 Meaning(s) == LET known == SelectSeq(s.dirs, LAMBDA d : ~d.unknown)
@@ -91,8 +92,11 @@ ActQuote(s) == L("quote", {SetDir(s, i, [s.dirs[i] EXCEPT !.quote = ~s.dirs[i].q
 Unknown1 == [name |-> <<120, 45, 118, 101, 114, 105, 102>>, hasval |-> FALSE, val |-> <<>>, case |-> 0, pre |-> <<>>, post |-> <<>>,
              eqpre |-> <<>>, eqpost |-> <<>>, quote |-> FALSE, quotable |-> FALSE, unknown |-> TRUE, eq |-> 61]     \* "x-verif"
 Unknown2 == [Unknown1 EXCEPT !.hasval = TRUE, !.val = <<49>>]                                                        \* "x-verif=1"
+\* JSON member names are strings: the unknown member is "x-verif": 1 there
+UName(s, u) == IF s.qnames THEN [u EXCEPT !.name = <<34>> \o u.name \o <<34>>, !.eqpost = s.dirs[1].eqpost] ELSE u
 ActUnknown(s) == (IF s.bareunknown THEN L("unknown:flag", {[s EXCEPT !.dirs = Append(s.dirs, [Unknown1 EXCEPT !.eq = s.dirs[1].eq])]}) ELSE {})
-            \cup L("unknown:valued", {[s EXCEPT !.dirs = Append(s.dirs, [Unknown2 EXCEPT !.eq = s.dirs[1].eq])]})
+            \cup L("unknown:valued", {[s EXCEPT !.dirs = Append(s.dirs, UName(s, [Unknown2 EXCEPT !.eq = s.dirs[1].eq]))]})
+            \cup (IF s.qnames THEN L("unknown:first", {[s EXCEPT !.dirs = <<UName(s, [Unknown2 EXCEPT !.eq = s.dirs[1].eq])>> \o s.dirs]}) ELSE {})
 \* header block: optional whitespace before and after the field value (RFC 9110 5.5: field-line = field-name ":" OWS field-value OWS)
 ActValWs(s) == L("val-ws:no-space-after-colon", {SetDir(s, i, [s.dirs[i] EXCEPT !.eqpost = <<>>]) : i \in Idx(s)})
           \cup L("val-ws:two-spaces-after-colon", {SetDir(s, i, [s.dirs[i] EXCEPT !.eqpost = SP \o SP]) : i \in Idx(s)})
@@ -118,5 +122,8 @@ Allowed(type) ==
     [] type = "tlsrpt"        -> {"ows", "trail", "order", "unknown"}
     [] type = "spf"           -> {"name-case"}
     [] type = "block"         -> {"name-case", "val-ws"}
+    \* NEL (a JSON object, RFC 8259 2: insignificant whitespace around the structural characters; 4: members are unordered;
+    \* Network Error Logging 3.x: unknown members are ignored)
+    [] type = "nel"           -> {"ows", "eq-ws", "order", "unknown"}
     [] OTHER                  -> {}
 =============================================================================
